@@ -116,12 +116,41 @@ pub fn gen_stmt(rng: &mut Rng, db: &[Table]) -> GenQuery {
         let core = format!("SELECT r0.{} AS c0, r0.{} AS c1, COUNT(*) AS c2, SUM(r0.id) AS c3 FROM {} AS r0 GROUP BY r0.{}, r0.{}", a, b, t.name, a, b);
         return GenQuery { sql: core.clone(), full_sql: core, keys: vec![], limit: None, offset: 0, tags: vec!["two-int-keys".into(), "group-by".into()], ncols: 4 };
     }
+    // the generic generators assume the standard column set (id, i0, ...)
+    let std_tables: Vec<Table> = db.iter().filter(|t| t.name != "cust" && t.name != "ord").cloned().collect();
     let mut g = G::new(rng, Feats::all());
     g.total_order_limit = true;
     match g.rng.below(10) {
-        0..=3 => g.q_simple(db, 3),
-        _ => g.q_agg(db, 3),
+        0..=3 => g.q_simple(&std_tables, 3),
+        _ => g.q_agg(&std_tables, 3),
     }
+}
+
+/// Does the statement's GROUP BY list contain a bare integer (an ordinal)?
+fn has_ordinal_group_key(sql: &str) -> bool {
+    let up = sql.to_uppercase();
+    let Some(p) = up.find(" GROUP BY ") else { return false };
+    let rest = &sql[p + 10..];
+    let end = [" HAVING ", " ORDER BY ", " LIMIT "].iter().filter_map(|k| rest.to_uppercase().find(k)).min().unwrap_or(rest.len());
+    let mut depth = 0i32;
+    let mut item = String::new();
+    let mut items = Vec::new();
+    for ch in rest[..end].chars() {
+        match ch {
+            '(' => {
+                depth += 1;
+                item.push(ch);
+            }
+            ')' => {
+                depth -= 1;
+                item.push(ch);
+            }
+            ',' if depth == 0 => items.push(std::mem::take(&mut item)),
+            _ => item.push(ch),
+        }
+    }
+    items.push(item);
+    items.iter().any(|i| !i.trim().is_empty() && i.trim().chars().all(|c| c.is_ascii_digit()))
 }
 
 /// A dimension with a unique, NULL-free but SPARSE key and a fact table whose
@@ -239,6 +268,13 @@ fn run_both(tier: Tier, seed: u64, c31: bool) -> i32 {
             let mut qrng = rng.fork(qi as u64);
             let q = gen_stmt(&mut qrng, &db);
             let sql = q.engine_sql();
+            if has_ordinal_group_key(&sql) {
+                // `GROUP BY 3` names the third select item (possibly an aggregate): not a statement this monitor means to generate
+                let mut r = CaseResult::default();
+                r.inconclusive = Some("generator-emitted-ordinal-group-key(skipped)".into());
+                out.push(r);
+                continue;
+            }
             let ordered = !q.keys.is_empty();
             let Ok(bound) = ctx.logical_plan(&sql) else {
                 let mut r = CaseResult::default();
